@@ -135,6 +135,9 @@ impl Acc {
         // keep memory bounded but count everything
         v.push(f);
     }
+    pub fn take_failures(&self) -> Vec<Failure> {
+        std::mem::take(&mut *self.failures.lock().unwrap())
+    }
     pub fn n_failures(&self) -> usize {
         self.failures.lock().unwrap().len()
     }
@@ -346,6 +349,8 @@ pub fn finish(fin: Finish, acc: &Acc) -> i32 {
     let mut violations = 0usize;
     let mut known_hits = vec![];
     let replay_dir = format!("{}/replays/{}", VERIF_DIR, fin.property);
+    // replays of earlier runs of this property are stale now
+    let _ = std::fs::remove_dir_all(&replay_dir);
     let mut lines_printed = 0usize;
     let mut keys_suppressed = 0usize;
     for (key, mut fs) in by_key {
